@@ -30,7 +30,10 @@ import (
 	"testing"
 	"time"
 
+	"github.com/lestrrat-go/jwx/v2/jwa"
 	"github.com/lestrrat-go/jwx/v2/jwk"
+	"github.com/lestrrat-go/jwx/v2/jws"
+	ssi "github.com/nuts-foundation/go-did"
 	"github.com/nuts-foundation/go-did/did"
 	"github.com/nuts-foundation/go-stoabs"
 	stoabsbbolt "github.com/nuts-foundation/go-stoabs/bbolt"
@@ -132,6 +135,7 @@ type vVMSpec struct {
 	Ctrl   string                 // "" => doc id ; "-" => omitted
 	RawJwk map[string]interface{} // overrides Key (for unparseable JWK)
 	JwkKid string                 // a "kid" member inside publicKeyJwk
+	Base58 string                 // publicKeyBase58 member
 }
 
 type vSvcSpec struct {
@@ -171,6 +175,9 @@ func (v vVMSpec) json(docID string) map[string]interface{} {
 	case "-":
 	default:
 		m["controller"] = v.Ctrl
+	}
+	if v.Base58 != "" {
+		m["publicKeyBase58"] = v.Base58
 	}
 	if v.RawJwk != nil {
 		m["publicKeyJwk"] = v.RawJwk
@@ -288,6 +295,7 @@ type vNVM struct {
 	IDEmpty   bool   `json:"idEmpty,omitempty"`
 	TypeBlank bool   `json:"typeBlank,omitempty"`
 	CtrlEmpty bool   `json:"ctrlEmpty,omitempty"`
+	PKUnsupported bool `json:"pkUnsupported,omitempty"` // go-did's PublicKey() does not read publicKeyJwk for this type
 	Key       string `json:"key"`
 }
 type vNSvc struct {
@@ -341,7 +349,8 @@ func vViewVM(vm *did.VerificationMethod) vNVM {
 	frag := u.Fragment
 	u.Fragment = ""
 	return vNVM{ID: vm.ID.String(), Pfx: u.String(), Frag: frag, IDEmpty: vm.ID.Empty(),
-		TypeBlank: len(strings.TrimSpace(string(vm.Type))) == 0, CtrlEmpty: vm.Controller.Empty(), Key: vKeyName(vm)}
+		TypeBlank: len(strings.TrimSpace(string(vm.Type))) == 0, CtrlEmpty: vm.Controller.Empty(), Key: vKeyName(vm),
+		PKUnsupported: vm.Type != ssi.JsonWebKey2020 && vm.Type != ssi.ECDSASECP256K1VerificationKey2019}
 }
 
 func vDigest(v interface{}) string {
@@ -416,6 +425,17 @@ func vRenderStored(d did.Document) string {
 		}
 		return "[" + strings.Join(p, ",") + "]"
 	}
+	entPK := func(l []vNVM) string {
+		var p []string
+		for _, v := range l {
+			mark := ""
+			if v.PKUnsupported {
+				mark = "?"
+			}
+			p = append(p, v.ID+"="+mark+v.Key)
+		}
+		return "[" + strings.Join(p, ",") + "]"
+	}
 	strs := func(l []string) string {
 		var p []string
 		for _, v := range l {
@@ -427,7 +447,7 @@ func vRenderStored(d did.Document) string {
 	for _, s := range n.Services {
 		sv = append(sv, s.ID+"="+s.Body)
 	}
-	return n.ID + "{Context:" + strs(n.Contexts) + ";Controller:" + strs(n.Controllers) + ";VerificationMethod:" + ent(n.VMs) +
+	return n.ID + "{Context:" + strs(n.Contexts) + ";Controller:" + strs(n.Controllers) + ";VerificationMethod:" + entPK(n.VMs) +
 		";Authentication:" + ent(n.Auth) + ";AssertionMethod:" + ent(n.Assertion) + ";CapabilityInvocation:" + ent(n.CapInv) +
 		";CapabilityDelegation:" + ent(n.CapDel) + ";KeyAgreement:" + ent(n.KeyAgr) + ";Service:[" + strings.Join(sv, ",") + "]}"
 }
@@ -479,6 +499,8 @@ type vPair struct {
 	EmptyHash bool    `json:"emptyHash,omitempty"`
 	Signer    string  `json:"signerKey"` // key name of the signing key (generator knowledge; EUF contract)
 	Kind      string  `json:"kind"`      // generator's label (distribution statistics only)
+	Delayed   bool    `json:"delayed,omitempty"`   // delayed-VDR schedule: the DAG verifier sees this transaction earlier than the ambassador
+	DagBefore int     `json:"dagBefore,omitempty"` // ... namely just before the pair with this index is processed
 	tx        vTx     // parsed
 	payload   []byte
 }
@@ -621,6 +643,8 @@ func vErrCause(err error) string {
 		return "invalid-kid"
 	case strings.Contains(err.Error(), "could not parse public key"):
 		return "bad-jwk"
+	case strings.Contains(err.Error(), "unsupported verification method type"), strings.Contains(err.Error(), "expected either publicKeyMultibase or publicKeyBase58"):
+		return "unsupported-type"
 	}
 	return "other(" + err.Error() + ")"
 }
@@ -727,6 +751,38 @@ func (n *vNode) deliver(p *vPair) (class string) {
 		return "err:sig:invalid"
 	}
 	return n.viaSubscriber(p)
+}
+
+// the DAG signature verifier alone
+func (n *vNode) dagVerify(p *vPair) (class string) {
+	defer func() {
+		if r := recover(); r != nil {
+			class = "panic:" + vPanicSite(r)
+		}
+	}()
+	if err := n.verifier(nil, p.tx); err != nil {
+		if strings.HasPrefix(err.Error(), "unable to verify transaction signature, can't resolve key by TX ref") {
+			return "err:sig:key:" + vErrCause(errors.Unwrap(err))
+		}
+		return "err:sig:invalid"
+	}
+	return "admit"
+}
+
+// independent check (jwx only): does the JWS verify under the key that the transaction's kid names (as the
+// ambassador's key resolver resolves it for the prevs)?
+func (n *vNode) signedByKidKey(p *vPair) (ok bool) {
+	defer func() {
+		if r := recover(); r != nil {
+			ok = false
+		}
+	}()
+	pk, err := n.keyRes.ResolvePublicKey(p.tx.SigningKeyID(), p.tx.Previous())
+	if err != nil {
+		return false
+	}
+	_, err = jws.Verify(p.tx.Data(), jws.WithKey(jwa.SignatureAlgorithm(p.tx.SigningAlgorithm()), pk))
+	return err == nil
 }
 
 // the callback is entered the way the network enters it: through the subscriber function handleNetworkEvent
@@ -953,6 +1009,7 @@ type vGen struct {
 	pairs   []*vPair
 	pending func(ok bool) // bookkeeping to run once the outcome of the last pair is known
 	queued  []func() *vPair // follow-up steps to take next
+	runDelayed func(ps []*vPair, pend []func(bool)) // delayed-VDR chunk: all pass the DAG verifier first, then the ambassador
 }
 
 func (g *vGen) freshKey() *vKey {
@@ -1163,7 +1220,18 @@ func vActive(d *vDid) bool {
 
 // ordinary edits of a document
 func (g *vGen) randomEdit(s *vDocSpec) {
-	switch g.rng.Intn(6) {
+	switch g.rng.Intn(8) {
+	case 6: // a well-formed key under another type name that go-did also reads from publicKeyJwk, listed for capabilityInvocation
+		k := g.freshKey()
+		id := s.ID + "#" + k.b64
+		s.VMs = append(s.VMs, vVMSpec{ID: id, Key: k, Type: "EcdsaSecp256k1VerificationKey2019"})
+		s.Rels["capabilityInvocation"] = append(s.Rels["capabilityInvocation"], id)
+	case 7: // a well-formed key under a type name go-did cannot make a public key of (assertion only / capabilityInvocation)
+		k := g.freshKey()
+		id := s.ID + "#" + k.b64
+		s.VMs = append(s.VMs, vVMSpec{ID: id, Key: k, Type: []string{"MadeUpVerificationKey2024", "Ed25519VerificationKey2018"}[g.rng.Intn(2)]})
+		rel := []string{"assertionMethod", "capabilityInvocation"}[g.rng.Intn(2)]
+		s.Rels[rel] = append(s.Rels[rel], id)
 	case 0: // add a key, listed for capabilityInvocation
 		k := g.freshKey()
 		id := s.ID + "#" + k.b64
@@ -1251,7 +1319,9 @@ var vViolations = []string{"no-did-context", "vm-no-fragment", "vm-duplicate-id"
 	"vm-blank-type", "vm-no-controller", "svc-no-fragment", "svc-duplicate-id", "svc-foreign-prefix", "svc-duplicate-type", "svc-blank-type",
 	"svc-no-endpoint", "svc-number-endpoint", "rel-unknown-reference", "rel-embedded-blank-type", "not-json",
 	"vm-no-jwk", "vm-empty-key-fragment", "ctx-only-object", "vm-kid-in-jwk", "vm-keyswap-known-id", "vm-known-id-other-did",
-	"vm-prefix-extension", "vm-prefix-truncated", "svc-prefix-extension", "svc-prefix-truncated"}
+	"vm-prefix-extension", "vm-prefix-truncated", "svc-prefix-extension", "svc-prefix-truncated",
+	"vm-secp-type-thumbprint-mismatch", "vm-unknown-type-thumbprint-mismatch", "vm-ed25519-type-jwk-mismatch", "vm-ed25519-base58-no-jwk",
+	"vm-keyswap-known-id-other-type"}
 
 func (g *vGen) violate(which string, s *vDocSpec) {
 	other := "did:nuts:" + g.keys[0].b58
@@ -1310,6 +1380,27 @@ func (g *vGen) violate(which string, s *vDocSpec) {
 	case "vm-empty-key-fragment":
 		k := g.freshKey()
 		s.VMs = append(s.VMs, vVMSpec{ID: s.ID + "#", Key: k})
+	case "vm-secp-type-thumbprint-mismatch": // a P-256 publicKeyJwk under another type name; the id is not the key's thumbprint
+		k, k2 := g.freshKey(), g.freshKey()
+		id := s.ID + "#" + k2.b64
+		s.VMs = append(s.VMs, vVMSpec{ID: id, Key: k, Type: "EcdsaSecp256k1VerificationKey2019"})
+		s.Rels["capabilityInvocation"] = append(s.Rels["capabilityInvocation"], id)
+	case "vm-unknown-type-thumbprint-mismatch":
+		k := g.freshKey()
+		s.VMs = append(s.VMs, vVMSpec{ID: s.ID + "#key-1", Key: k, Type: "MadeUpVerificationKey2024"})
+	case "vm-ed25519-type-jwk-mismatch":
+		k := g.freshKey()
+		id := s.ID + "#ed-" + k.b64[:6]
+		s.VMs = append(s.VMs, vVMSpec{ID: id, Key: k, Type: "Ed25519VerificationKey2018"})
+		s.Rels["capabilityInvocation"] = append(s.Rels["capabilityInvocation"], id)
+	case "vm-ed25519-base58-no-jwk": // a key in a type specific member only
+		s.VMs = append(s.VMs, vVMSpec{ID: s.ID + "#ed-b58", Type: "Ed25519VerificationKey2018", Base58: "6MkpTHR8VNsBxYAAWHut2Geadd9jSwuBV8xRoAnwWsdvktH"})
+	case "vm-keyswap-known-id-other-type": // known id, other key material, and the type renamed
+		if len(s.VMs) > 0 {
+			i := g.rng.Intn(len(s.VMs))
+			s.VMs[i].Key = g.freshKey()
+			s.VMs[i].Type = "EcdsaSecp256k1VerificationKey2019"
+		}
 	case "vm-prefix-extension": // the id's DID merely starts with the document's DID
 		k := g.freshKey()
 		s.VMs = append(s.VMs, vVMSpec{ID: s.ID + "x#" + k.b64, Key: k})
@@ -1670,6 +1761,8 @@ type vOp struct {
 	Tx     *vTxView   `json:"tx,omitempty"`
 	Doc    *vNDoc     `json:"doc,omitempty"` // nil = payload does not unmarshal
 	Raw    *vPair     `json:"raw,omitempty"`
+	CB       *bool    `json:"cb,omitempty"`       // pair: straight into the callback (no verifier at this moment)
+	Verified bool     `json:"verified,omitempty"` // pair: the DAG signature verifier has admitted this transaction (now or earlier)
 }
 
 type vRunner struct {
@@ -1760,10 +1853,30 @@ func (r *vRunner) runHistory(h int, label string, noVerify bool, pairs []*vPair,
 	prevCheap := n.observeCheap()
 	fmt.Fprintf(r.implW, "hist %d %s\n", h, prevObs)
 	var classes []string
+	admitted := map[int]string{}
 	for i, p := range pairs {
+		// delayed-VDR schedule: transactions whose DAG admission happens now (store state of this moment)
+		for j := i; j < len(pairs); j++ {
+			if pairs[j].Delayed && pairs[j].DagBefore == i {
+				admitted[j] = n.dagVerify(pairs[j])
+				view := vTxViewOf(pairs[j].tx, pairs[j].Signer)
+				emitOp(vOp{Op: "verify", H: h, I: j, Tx: &view, Raw: pairs[j]})
+				fmt.Fprintf(r.implW, "verify %d.%d %s\n", h, j, admitted[j])
+			}
+		}
+		if p.Delayed && admitted[i] != "admit" {
+			classes = append(classes, "dropped:"+admitted[i]) // never reaches the ambassador
+			continue
+		}
 		before := n.dbDigest()
 		notified := n.notified
-		class := n.deliver(p)
+		var class string
+		cbOnly := noVerify || p.Delayed
+		if p.Delayed {
+			class = n.viaSubscriber(p)
+		} else {
+			class = n.deliver(p)
+		}
 		after := n.dbDigest()
 		// Resolve and the key resolver read the database only: with byte-identical content only the in-memory
 		// state (conflicted cache) and the counters are re-read; otherwise everything is observed again
@@ -1775,7 +1888,8 @@ func (r *vRunner) runHistory(h int, label string, noVerify bool, pairs []*vPair,
 		prevCheap = cheap
 		classes = append(classes, class)
 		view := vTxViewOf(p.tx, p.Signer)
-		emitOp(vOp{Op: "pair", H: h, I: i, Tx: &view, Doc: vParsePayload(p.payload), Raw: p})
+		verified := !noVerify || p.Delayed
+		emitOp(vOp{Op: "pair", H: h, I: i, Tx: &view, Doc: vParsePayload(p.payload), Raw: p, CB: &cbOnly, Verified: verified})
 		// direct oracle material, implementation only: raw database identity and the network notification
 		inert := "db-same"
 		if before != after {
@@ -1784,6 +1898,9 @@ func (r *vRunner) runHistory(h int, label string, noVerify bool, pairs []*vPair,
 		note := ""
 		if (n.notified > notified) != (class == "ok") {
 			note = " NOTIFY-MISMATCH"
+		}
+		if verified && class == "ok" && p.tx.SigningKey() == nil && !n.signedByKidKey(p) {
+			note += " SIG-NOT-BY-KID-KEY"
 		}
 		if expect != nil && i < len(expect) && expect[i] != class {
 			note += " NONDETERMINISTIC(first-run=" + expect[i] + ")"
@@ -1812,6 +1929,29 @@ func (r *vRunner) genHistory(h int, rng *rand.Rand, steps int, kind string, noVe
 			g.pending = nil
 		}
 		return class == "ok"
+	}
+	g.runDelayed = func(ps []*vPair, pend []func(bool)) {
+		start := len(g.pairs) - len(ps)
+		verdict := make([]string, len(ps))
+		for k, p := range ps {
+			p.Delayed, p.DagBefore = true, start
+			verdict[k] = n.dagVerify(p)
+		}
+		for k, p := range ps {
+			if verdict[k] != "admit" {
+				first = append(first, "dropped:"+verdict[k])
+				if pend[k] != nil {
+					pend[k](false)
+				}
+				continue
+			}
+			class := n.viaSubscriber(p)
+			first = append(first, class)
+			if pend[k] != nil {
+				pend[k](class == "ok")
+			}
+		}
+		g.pending = nil
 	}
 	vScenario(g, kind, run)
 	for len(g.pairs) < steps {
@@ -1968,6 +2108,39 @@ func vScenario(g *vGen, kind string, run func(p *vPair) bool) {
 				return a, e.latest().spec.ID + "#" + a.b64, []hash.SHA256Hash{e.latest().ref}
 			}}))
 		}
+	case kind == "delayed-vdr":
+		// several transactions pass the DAG verifier before the ambassador processes them in order
+		run(g.create("dv:create", nil, nil, nil))
+		x := g.dids[g.order[len(g.order)-1]]
+		if x == nil || x.latest() == nil || len(x.latest().spec.capInvKeys()) == 0 {
+			return
+		}
+		grab := func(p *vPair) (*vPair, func(bool)) { f := g.pending; g.pending = nil; return p, f }
+		takeover := func(att *vKey) []byte {
+			spec := vDocUnderDID(att, x.latest().spec.ID)
+			return spec.payload()
+		}
+		own := x.latest().spec.capInvKeys()[0]
+		for round := 0; round < 2; round++ {
+			att := g.freshKey()
+			cur := x.latest()
+			// V1: genuine update, pending; F: forged update naming V1 as prev, kid = the victim's key, signed by the attacker
+			v1, p1 := grab(g.update(vUpdateOpts{kind: "dv:genuine-pending", target: x, next: g.randomEdit, signer: func() (*vKey, string, []hash.SHA256Hash) { return own.Key, own.ID, nil }}))
+			prevs := []hash.SHA256Hash{v1.tx.Ref()}
+			f, pf := grab(g.emit("dv:forged-on-pending-prev", takeover(att), vSignSpec{key: att, kid: own.ID, prevs: prevs, clock: g.clockFor(prevs)}, nil))
+			// V2: genuine update on top of the pending V1 (its kid is not resolvable at DAG time either)
+			v2spec := cur.spec.clone()
+			v2spec.Svcs = append(v2spec.Svcs, vSvcSpec{ID: fmt.Sprintf("%s#svc-dv%d", v2spec.ID, round), Type: fmt.Sprintf("type-dv%d", round), Endpoint: "https://example.com/dv"})
+			v2, p2 := grab(g.emit("dv:genuine-on-pending-prev", v2spec.payload(), vSignSpec{key: own.Key, kid: own.ID, prevs: prevs, clock: g.clockFor(prevs)}, nil))
+			// F2: forged update whose kid IS resolvable at DAG time
+			prevs2 := []hash.SHA256Hash{cur.ref}
+			f2, pf2 := grab(g.emit("dv:forged-on-applied-prev", takeover(att), vSignSpec{key: att, kid: own.ID, prevs: prevs2, clock: g.clockFor(prevs2)}, nil))
+			g.runDelayed([]*vPair{v1, f, v2, f2}, []func(bool){p1, pf, p2, pf2})
+			if x.latest() == nil || len(x.latest().spec.capInvKeys()) == 0 {
+				return
+			}
+			own = x.latest().spec.capInvKeys()[0]
+		}
 	case kind == "did-prefix":
 		// DIDs that are proper prefixes / extensions of the embedded key's thumbprint; two unrelated keys whose
 		// thumbprints share the first character both try to create that one-character DID
@@ -2010,6 +2183,15 @@ func vScenario(g *vGen, kind string, run func(p *vPair) bool) {
 			}}))
 		// K' acts under the name of K: deactivation
 		run(g.update(vUpdateOpts{kind: "ks:deactivate-by-swapped-key", target: d, next: vDeactivate, signer: func() (*vKey, string, []hash.SHA256Hash) { return kp, swapped, nil }}))
+		run(g.update(vUpdateOpts{kind: "ks:swap-key-and-type-under-known-id", target: d, signer: func() (*vKey, string, []hash.SHA256Hash) { return ci[1].Key, ci[1].ID, nil },
+			next: func(s *vDocSpec) {
+				for i := range s.VMs {
+					if s.VMs[i].ID == swapped {
+						s.VMs[i].Key = kp
+						s.VMs[i].Type = "EcdsaSecp256k1VerificationKey2019"
+					}
+				}
+			}}))
 		// the same id inside another DID's document
 		run(g.create("violate:vm-known-id-other-did", nil, func(s *vDocSpec, _ *vKey) { g.violate("vm-known-id-other-did", s) }, nil))
 	case kind == "embedded-capinv":
@@ -2044,6 +2226,8 @@ func vLoadReplay(path string) (map[int][]*vPair, map[int]bool) {
 	defer f.Close()
 	out := map[int][]*vPair{}
 	nov := map[int]bool{}
+	seen := map[int]map[int]bool{}
+	idx := map[int][]int{}
 	sc := bufio.NewScanner(f)
 	sc.Buffer(make([]byte, 1<<20), 1<<26)
 	for sc.Scan() {
@@ -2054,9 +2238,16 @@ func vLoadReplay(path string) (map[int][]*vPair, map[int]bool) {
 		if op.Op == "hist" {
 			nov[op.H] = op.NoVerify
 		}
-		if op.Op != "pair" || op.Raw == nil {
+		if (op.Op != "pair" && op.Op != "verify") || op.Raw == nil {
 			continue
 		}
+		if seen[op.H] == nil {
+			seen[op.H] = map[int]bool{}
+		}
+		if seen[op.H][op.I] {
+			continue
+		}
+		seen[op.H][op.I] = true
 		p := op.Raw
 		tx, err := dag.ParseTransaction([]byte(p.JWS))
 		if err != nil {
@@ -2065,6 +2256,29 @@ func vLoadReplay(path string) (map[int][]*vPair, map[int]bool) {
 		p.tx = vTx{Transaction: tx, zeroTime: p.ZeroTime, emptyHash: p.EmptyHash}
 		p.payload, _ = base64.StdEncoding.DecodeString(p.Payload)
 		out[op.H] = append(out[op.H], p)
+		idx[op.H] = append(idx[op.H], op.I)
+	}
+	// pairs in index order (a delayed pair is first seen in its verify op); DagBefore is re-based on the new positions
+	for h, ps := range out {
+		order := make([]int, len(ps))
+		for i := range order {
+			order[i] = i
+		}
+		sort.SliceStable(order, func(a, b int) bool { return idx[h][order[a]] < idx[h][order[b]] })
+		sorted := make([]*vPair, len(ps))
+		pos := map[int]int{}
+		for k, o := range order {
+			sorted[k] = ps[o]
+			pos[idx[h][o]] = k
+		}
+		for _, p := range sorted {
+			if p.Delayed {
+				if np, ok := pos[p.DagBefore]; ok {
+					p.DagBefore = np
+				}
+			}
+		}
+		out[h] = sorted
 	}
 	return out, nov
 }
@@ -2113,7 +2327,7 @@ func TestVerifC09(t *testing.T) {
 	}
 	rng := rand.New(rand.NewSource(seed*7919 + 9))
 	scripted := []string{"chain0", "chain1", "chain2", "chain3", "chain4", "chain5", "chain6", "cycle1", "cycle2", "cycle3", "cycle5",
-		"deactivated-controller", "removed-key", "validator-sweep", "embedded-capinv", "handed-over", "key-swap", "did-prefix"}
+		"deactivated-controller", "removed-key", "validator-sweep", "embedded-capinv", "handed-over", "key-swap", "did-prefix", "delayed-vdr"}
 	for h := 0; h < nHist; h++ {
 		kind := "mixed"
 		if h%2 == 0 {
